@@ -24,7 +24,7 @@ ASSUMPTIONS = ['4 query genomes, 6 reference genomes; batches of <= 3; reference
 
 LABELS = ['g1', 'g2', 'g3', 'g4']
 DIMS = dict(
-	channel=['positional', 'list', 'sigfile'],
+	channel=['positional', 'list', 'list-no-final-newline', 'list-crlf', 'list-blank-lines', 'sigfile'],
 	comp=['stored', 'opposite', 'multi-member-gzip'],
 	cores=['unset', '1', '2', '16'],
 	progress=['--no-progress', '--progress'],
@@ -76,10 +76,14 @@ def invoke(fx, d, batch, v, tag='out'):
 	if v['channel'] == 'positional':
 		args += paths
 		exp_labels = [R.ref_label(p) for p in paths]
-	elif v['channel'] == 'list':
+	elif v['channel'].startswith('list'):
 		base = os.path.join(fx.d, src[1])
 		rel = [os.path.relpath(p, base) for p in paths]
-		lf = clifix.write_listfile(os.path.join(d, 'list.txt'), rel)
+		lf = os.path.join(d, 'list.txt')
+		text = {'list': '\n'.join(rel) + '\n', 'list-no-final-newline': '\n'.join(rel), 'list-crlf': '\r\n'.join(rel) + '\r\n',
+		        'list-blank-lines': '\n' + '\n\n'.join(rel) + '\n\n'}[v['channel']]
+		with open(lf, 'w', newline='') as f:
+			f.write(text)
 		args += ['-l', lf, '--ldir', base]
 		exp_labels = [R.ref_label(p) for p in rel]
 	else:
